@@ -38,13 +38,92 @@ class RegPool:
         return ["lit", _lit(self.rng)] if self.rng.random() < p_lit else self.reg()
 
 
-def gen_exec_prog(rng, max_len=14):
+def slice_op(rng, pool, addrs, p_lit):
+    """@a[s:e] with literal or register bounds; small literal bounds keep the slice inside what was stored"""
+    def bound(lo, hi):
+        return ["lit", rng.randint(lo, hi)] if rng.random() < max(p_lit, 0.3) else pool.reg()
+    return ["slice", rng.choice(addrs), bound(0, 1), bound(0, 3)]
+
+
+LOOP0 = "LOOP0"
+AFTER0 = "AFTER0"
+
+
+def gen_loop0_prog(rng):
+    """a terminating loop whose label stands in front of the VERY FIRST instruction, entered again by a
+    taken backward branch (single subroutine on a fresh application): the flag register is undefined in the
+    first pass (bez not taken) and 0 in the second (taken); what follows the loop is observable"""
+    pool = RegPool(rng)
+    flag = ["reg", 1, next(i for i in range(16) if (1, i) not in pool.other)]
+    body = gen_exec_prog(rng, max_len=5, pool=pool)
+    out = ["reg", 0, rng.choice(pool.r)]
+    prog = [["lab", LOOP0]]
+    if rng.random() < 0.3:
+        prog.insert(0, ["lab", "L_first"])
+    prog += [["ins", "bez", [], [flag, ["label", AFTER0]]], ["ins", "set", [], [flag, ["lit", 0]]]]
+    prog += body
+    prog += [["ins", "jmp", [], [["label", rng.choice([c[1] for c in prog[:2] if c[0] == "lab"])]]],
+             ["lab", AFTER0], ["ins", "set", [], [out, ["lit", rng.randint(5, 9)]]], ["ins", "ret_reg", [], [out]]]
+    return prog
+
+
+def gen_sequence(rng):
+    """subroutines of ONE application: the first defines registers and fully stored arrays, the following ones
+    use them (also registers they only read, e.g. only as slice bound or index) together with literals; one of
+    them may be a counted loop whose label is in front of its first instruction (counter from the earlier
+    subroutine)"""
+    pool = RegPool(rng)
+    addrs = [0, 1, 2]
+    first = []
+    regs = [["reg", 0, i] for i in pool.r] + [["reg", b, i] for b, i in pool.other]
+    rng.shuffle(regs)
+    for r in regs:
+        first.append(["ins", "set", [], [r, ["lit", rng.randint(0, 3)]]])
+    for a in addrs:
+        n = rng.randint(4, 7)
+        first.append(["ins", "array", [], [["lit", n], ["addr", a]]])
+        for k in range(n):
+            first.append(["ins", "store", [], [["lit", rng.randint(0, 5)], ["entry", a, ["lit", k]]]])
+    seq = [first]
+    for _ in range(rng.randint(1, 3)):
+        p_lit = rng.choice([0.3, 0.5, 0.8])
+        m = rng.random()
+        if m < 0.35:
+            # registers that are only read: slice bounds / index, plus instructions with several literals
+            prog = []
+            for _ in range(rng.randint(1, 4)):
+                k = rng.random()
+                if k < 0.4:
+                    prog.append(["ins", "wait_all", [], [["slice", rng.choice(addrs), ["reg", 0, rng.choice(pool.r)],
+                                                          ["reg", 0, rng.choice(pool.r)]]]])
+                elif k < 0.8:
+                    prog.append(["ins", "store", [], [["lit", rng.randint(0, 9)],
+                                                      ["entry", rng.choice(addrs), ["lit", rng.randint(0, 3)]]]])
+                else:
+                    prog.append(["ins", "load", [], [["reg", 0, rng.choice(pool.r)],
+                                                     ["entry", rng.choice(addrs), ["reg", 0, rng.choice(pool.r)]]]])
+            if rng.random() < 0.5:
+                prog.append(["ins", "ret_arr", [], [["addr", rng.choice(addrs)]]])
+        elif m < 0.65:
+            c = ["reg", 0, rng.choice(pool.r)]
+            body = gen_exec_prog(rng, max_len=4, pool=pool, addrs=addrs, prelude=False, p_lit=p_lit)
+            prog = [["lab", LOOP0], ["ins", "add", [], [c, c, ["lit", 1]]]] + body
+            prog += [["ins", rng.choice(["blt", "bne"]), [], [c, ["lit", rng.randint(4, 6)], ["label", LOOP0]]]]
+            if rng.random() < 0.5:
+                prog.append(["ins", "ret_reg", [], [c]])
+        else:
+            prog = gen_exec_prog(rng, max_len=8, pool=pool, addrs=addrs, prelude=False, p_lit=p_lit)
+        seq.append(prog)
+    return seq
+
+
+def gen_exec_prog(rng, max_len=14, pool=None, addrs=None, prelude=True, p_lit=None):
     """a well-shaped classical program (the instructions the source semantics
     gives a meaning to), literals in every value position incl. indices, labels
     anywhere incl. consecutive and after the last instruction, bounded loops"""
-    pool = RegPool(rng)
-    p_lit = rng.choice([0.0, 0.3, 0.5, 0.8])
-    addrs = [0, 1, rng.choice([2, 2, 5, -1])]
+    pool = pool or RegPool(rng)
+    p_lit = rng.choice([0.0, 0.3, 0.5, 0.8]) if p_lit is None else p_lit
+    addrs = addrs or [0, 1, rng.choice([2, 2, 5, -1])]
     prog = []
     labels_fwd = []  # labels that must still be placed
     used_labels = set()
@@ -60,7 +139,9 @@ def gen_exec_prog(rng, max_len=14):
     def entry():
         return ["entry", rng.choice(addrs), pool.val(p_lit) if rng.random() < 0.8 else ["lit", rng.randint(-2, 5)]]
 
-    if rng.random() < 0.85:
+    if not prelude:
+        pass
+    elif rng.random() < 0.85:
         # define every register the program may read (random order)
         regs = [["reg", 0, i] for i in pool.r] + [["reg", b, i] for b, i in pool.other]
         rng.shuffle(regs)
@@ -71,7 +152,7 @@ def gen_exec_prog(rng, max_len=14):
         for _ in range(rng.randint(0, 5)):
             prog.append(["ins", "set", [], [pool.reg(), ["lit", _lit(rng)]]])
     # declare arrays (after the registers are defined)
-    for a in addrs[: rng.choice([0, 2, 3, 3, 3, 3])]:
+    for a in (addrs[: rng.choice([0, 2, 3, 3, 3, 3])] if prelude else []):
         if rng.random() < 0.8:
             prog.append(["ins", "array", [], [["lit", rng.randint(4, 7)], ["addr", a]]])
         else:  # size from a register that was just given a small value (a huge size would exhaust memory)
@@ -99,8 +180,10 @@ def gen_exec_prog(rng, max_len=14):
             prog.append(["ins", "load", [], [pool.reg(), entry()]])
         elif m < 0.64:
             prog.append(["ins", "undef", [], [entry()]])
-        elif m < 0.68:
+        elif m < 0.66:
             prog.append(["ins", "lea", [], [pool.reg(), ["addr", rng.choice(addrs)]]])
+        elif m < 0.68:
+            prog.append(["ins", "wait_all", [], [slice_op(rng, pool, addrs, p_lit)]])
         elif m < 0.72:
             prog.append(["ins", "array", [], [["lit", rng.randint(-1, 6)], ["addr", rng.choice(addrs)]]])
         elif m < 0.76:
